@@ -120,6 +120,10 @@ def _unify(pat: Any, node: Any, env: dict[str, Any]) -> None:
                 _unify(p, n, env)
             for p, n in zip(tail, node[len(node) - len(tail) :] if tail else []):
                 _unify(p, n, env)
+            mid = node[len(head) : len(node) - len(tail)]
+            if "__ellipsis__" in env and [ast.dump(m) for m in env["__ellipsis__"]] != [ast.dump(m) for m in mid]:
+                raise NoMatch
+            env["__ellipsis__"] = mid
             return
         if len(pat) != len(node):
             raise NoMatch
@@ -145,8 +149,28 @@ class _Subst(ast.NodeTransformer):
         self.env = env
 
     def visit_Name(self, node: ast.Name) -> Any:
-        if node.id in self.env:
+        if node.id in self.env and node.id != "__ellipsis__":
             return copy.deepcopy(self.env[node.id])
+        return node
+
+    def generic_visit(self, node: ast.AST) -> Any:
+        # `...` in a list position expands to the sequence it was bound to
+        for field, value in ast.iter_fields(node):
+            if isinstance(value, list):
+                out: list[Any] = []
+                for item in value:
+                    inner = item.value if isinstance(item, (ast.Expr, ast.Starred)) and not isinstance(item, ast.Starred) else item
+                    if isinstance(inner, ast.Name) and inner.id == "__ellipsis__" and isinstance(self.env.get("__ellipsis__"), list):
+                        out.extend(copy.deepcopy(self.env["__ellipsis__"]))
+                    elif isinstance(item, ast.AST):
+                        r = self.visit(item)
+                        if r is not None:
+                            out.append(r)
+                    else:
+                        out.append(item)
+                setattr(node, field, out)
+            elif isinstance(value, ast.AST):
+                setattr(node, field, self.visit(value))
         return node
 
 
@@ -168,13 +192,16 @@ def instantiate(old: str, new: str, segment: str) -> tuple[str, str] | None:
         kind_n, newt = _parse_fragment(new)
     except SyntaxError:
         return ("invalid", new)
-    if "__ellipsis__" in ast.dump(newt) if isinstance(newt, ast.AST) else any("__ellipsis__" in ast.dump(s) for s in newt):
-        return None  # the replacement is schematic itself: nothing concrete to run
     sub = _Subst(env)
-    if kind_n == "expr":
-        out = ast.unparse(ast.fix_missing_locations(sub.visit(newt)))
-    else:
-        out = "\n".join(ast.unparse(ast.fix_missing_locations(sub.visit(s))) for s in newt)
+    try:
+        if kind_n == "expr":
+            out = ast.unparse(ast.fix_missing_locations(sub.visit(newt)))
+        else:
+            out = "\n".join(ast.unparse(ast.fix_missing_locations(sub.visit(s))) for s in newt)
+    except Exception:  # noqa: BLE001
+        return None
+    if "__ellipsis__" in out:
+        return None  # the replacement is schematic itself: nothing concrete to run
     return kind_n, out
 
 
@@ -185,28 +212,73 @@ def offset(lines: list[str], line: int, col: int) -> int:
     return pre + len(text.encode("utf8")[:col].decode("utf8", "ignore"))
 
 
+def _candidates(source: str, line: int, col: int) -> list[tuple[int, int, Any]]:
+    """character spans of the ast nodes (expressions and statements) that contain the position, innermost first"""
+    lines = source.split("\n")
+    try:
+        tree = ast.parse(source)
+    except SyntaxError:
+        return []
+    out = []
+    for n in ast.walk(tree):
+        if not isinstance(n, (ast.expr, ast.stmt)) or getattr(n, "end_lineno", None) is None:
+            continue
+        if (n.lineno, n.col_offset) <= (line, col) <= (n.end_lineno, n.end_col_offset):
+            a, b = offset(lines, n.lineno, n.col_offset), offset(lines, n.end_lineno, n.end_col_offset)
+            out.append((a, b, n))
+    out.sort(key=lambda t: t[1] - t[0])
+    return out
+
+
 def apply_rewrite(source: str, d: dict[str, Any]) -> tuple[str, str] | tuple[None, str]:
-    """-> (new source, replacement text) or (None, reason)"""
+    """-> (new source, replacement text) or (None, reason).
+
+    The diagnostic's position may be that of a sub-expression of the code its message quotes (FURB108 reports at the
+    common operand), so the quoted OLD code is looked for among the syntax nodes that contain the reported position,
+    innermost first."""
     sm = split_message(d["msg"])
     if sm is None:
         return None, "message is not of the form Replace `A` with `B`"
-    if d.get("line_end") is None or d.get("col_end") is None:
-        return None, "diagnostic has no end position"
-    lines = source.split("\n")
-    a, b = offset(lines, d["line"], d["col"]), offset(lines, d["line_end"], d["col_end"])
-    segment = source[a:b]
-    inst = instantiate(sm[0], sm[1], segment)
-    if inst is None:
-        return None, "the quoted code does not unify with the source at the reported span"
-    kind, text = inst
-    if kind == "invalid":
-        return None, "replacement is not valid Python: " + text
-    if kind == "expr":
-        new_source = source[:a] + "(" + text + ")" + source[b:]
-    else:
+    old, new = sm
+    cands = _candidates(source, d["line"], d["col"])
+    if not cands:
+        return None, "no syntax node at the reported position"
+
+    def splice(a: int, b: int, kind: str, text: str) -> tuple[str, str]:
+        if kind == "expr":
+            return source[:a] + "(" + text + ")" + source[b:], text
         indent = " " * (a - (source.rfind("\n", 0, a) + 1))
-        new_source = source[:a] + text.replace("\n", "\n" + indent) + source[b:]
-    return new_source, text
+        return source[:a] + text.replace("\n", "\n" + indent) + source[b:], text
+
+    for a, b, node in cands:
+        inst = instantiate(old, new, source[a:b])
+        if inst is None:
+            continue
+        kind, text = inst
+        if kind == "invalid":
+            return None, "replacement is not valid Python: " + text
+        return splice(a, b, kind, text)
+    # operator fragments: `in [x, y]` -> `in (x, y)`, `in d.keys()` -> `in d`
+    for op in ("not in ", "in ", "is not ", "is "):
+        if old.startswith(op) and new.startswith(op):
+            for a, b, node in cands:
+                inst = instantiate(old[len(op) :], new[len(op) :], source[a:b])
+                if inst and inst[0] == "expr":
+                    return splice(a, b, "expr", inst[1])
+    # a string literal quoted by its content: `0123456789` -> `string.digits`
+    lines = source.split("\n")
+    for a, b, node in cands:
+        hits = [n for n in ast.walk(node) if isinstance(n, ast.Constant) and isinstance(n.value, str) and n.value == old and getattr(n, "end_lineno", None)]
+        if len(hits) == 1:
+            n = hits[0]
+            return splice(offset(lines, n.lineno, n.col_offset), offset(lines, n.end_lineno, n.end_col_offset), "expr", new)
+    # textual fragments (f-string fields `{bin(n)}` -> `{n:#b}`): exactly one occurrence in the innermost node holding it
+    for a, b, node in cands:
+        seg = source[a:b]
+        if seg.count(old) == 1:
+            text = seg.replace(old, new)
+            return source[:a] + text + source[b:], text
+    return None, "the quoted code does not unify with the source at the reported position"
 
 
 # ------------------------------------------------------------------------------------------
